@@ -207,14 +207,15 @@ def analyse(entry, pkg, extra_bodies=()):
             continue
         spawns += go_statements("%s %s" % (f["file"], f["name"]), f["body"], f["bodyline"])
     children = sorted(set(re.findall(r'supervisor\.Run\(ctx, "([^"]+)"', " ".join([entry["body"]] + [f["body"] for f in reached]))))
-    # the runnable recovers itself: a recover() in the entry function outside every `go func` body
-    top = entry["body"]
-    for m in reversed(list(re.finditer(r'(?<![\w.])go\s+func\s*\(', top))):
-        pe = balanced(top, m.end() - 1)
-        bi = top.index("{", pe)
-        be = balanced(top, bi, "{", "}")
-        top = top[:m.start()] + top[be:]
-    recovers = bool(re.search(r'\brecover\(\)', top))
+    # the runnable recovers itself: a recover() in the entry function, or in a wrapper around it, outside every `go func` body
+    def top_level(top):
+        for m in reversed(list(re.finditer(r'(?<![\w.])go\s+func\s*\(', top))):
+            pe = balanced(top, m.end() - 1)
+            bi = top.index("{", pe)
+            be = balanced(top, bi, "{", "}")
+            top = top[:m.start()] + top[be:]
+        return top
+    recovers = any(re.search(r'\brecover\(\)', top_level(b)) for b in bodies)
     healthy = any(re.search(r'supervisor\.Signal\(ctx, supervisor\.SignalHealthy\)|(?<![\w.])Signal\(ctx, SignalHealthy\)', b) for b in bodies)
     spawns = sorted(set(spawns))
     return dict(recovers=recovers, spawns=[w for w, _ in spawns], guarded=sum(1 for _, g in spawns if g), healthy=healthy, children=children)
